@@ -133,7 +133,9 @@ func c04Expr(r *core.Rand, c *core.Ctx) *hast.Expr {
 	return []*hast.Expr{hast.Var("s"), hast.Var("pad"), hast.Var("uni"), hast.Var("empty"), hast.Str("lit #notag //nocomment <<nocmd>>"), hast.Bin("+", hast.Var("s"), hast.Str("}"))}[r.Intn(6)]
 }
 
-var c04Tags = []string{"tag", "line:0a1b2c", "étiquette", "a/b", "x}y", "weird//tag", "{t}", "日", "t-1", "a.b"}
+var c04Tags = []string{"tag", "line:0a1b2c", "étiquette", "a/b", "x}y", "weird//tag", "{t}", "日", "t-1", "a.b",
+	// white space that does not end a tag (only blank, tab, line ends, #, $ and < do) is part of the tag
+	"prix\u00a0", "\u3000wide", "a\u2003b", "\u00a0", "nel\u0085"}
 
 func c04TagList(r *core.Rand) []string {
 	var t []string
